@@ -15,7 +15,7 @@ use crate::core::{idx, search, Ctx, Search};
 use crate::model::util::{make_passkey, snap, PkSnap};
 use crate::rt::{block_on, contract_find, Disc, RefStore, ScriptedUv, StoreCall, UvScript};
 
-const RPS: [&str; 3] = ["example.com", "login.example.org", "foo.co.uk"];
+const RPS: [&str; 5] = ["example.com", "login.example.org", "login.example.com", "Example.com", "foo.co.uk"];
 pub const SIG_D5: &str = "memorystore-ids-foreign-rp";
 
 #[derive(Clone, Copy, Debug, Serialize, Deserialize, PartialEq, Eq, Hash)]
@@ -383,7 +383,7 @@ pub fn check_b(ctx: &mut Ctx, c: &CaseB) -> Result<(), String> {
 // ------------------------------------------------------------------ strategies
 
 fn cred_desc() -> impl Strategy<Value = CredDesc> {
-    (0usize..3, any::<u8>(), proptest::option::of(0u32..100)).prop_map(|(rp, user, counter)| CredDesc { rp, user, counter })
+    (0usize..5, any::<u8>(), proptest::option::of(0u32..100)).prop_map(|(rp, user, counter)| CredDesc { rp, user, counter })
 }
 
 fn list_sel() -> impl Strategy<Value = ListSel> {
@@ -392,7 +392,7 @@ fn list_sel() -> impl Strategy<Value = ListSel> {
 }
 
 fn case_a() -> impl Strategy<Value = CaseA> {
-    (prop_oneof![4 => Just(Kind::Ref), 2 => Just(Kind::Memory), 1 => Just(Kind::OptionSlot), 1 => Just(Kind::ArcMutexMemory)], proptest::collection::vec(cred_desc(), 0..9), any::<bool>(), 0usize..3, list_sel())
+    (prop_oneof![4 => Just(Kind::Ref), 2 => Just(Kind::Memory), 1 => Just(Kind::OptionSlot), 1 => Just(Kind::ArcMutexMemory)], proptest::collection::vec(cred_desc(), 0..9), any::<bool>(), 0usize..5, list_sel())
         .prop_map(|(kind, contents, create, rp, list)| CaseA { kind, contents, create, rp, list })
 }
 
@@ -408,13 +408,13 @@ fn case_b() -> impl Strategy<Value = CaseB> {
         Just(Kind::RwLockOption),
         Just(Kind::Ref),
     ];
-    let op = prop_oneof![3 => cred_desc().prop_map(StoreOp::Save), 1 => (any::<u16>(), any::<u32>()).prop_map(|(j, c)| StoreOp::Update(j, c)), 5 => (list_sel(), 0usize..3).prop_map(|(l, r)| StoreOp::Query(l, r))];
+    let op = prop_oneof![3 => cred_desc().prop_map(StoreOp::Save), 1 => (any::<u16>(), any::<u32>()).prop_map(|(j, c)| StoreOp::Update(j, c)), 5 => (list_sel(), 0usize..5).prop_map(|(l, r)| StoreOp::Query(l, r))];
     (kinds, proptest::collection::vec(op, 1..16)).prop_map(|(kind, ops)| CaseB { kind, ops })
 }
 
 pub fn run(ctx: &mut Ctx) {
     let fs = ctx.first_shard();
-    ctx.rule = "(A) authenticator over the reference store (contract semantics, call log), MemoryStore, the Option slot and Arc<Mutex<MemoryStore>>: contents of 0-8 credentials over 3 RPs with equal user handles across RPs; assertions and registrations with every allow/exclude-list shape (absent, empty, hits, misses, ids of another RP, unknown descriptor types). (B) contract conformance of every shipped store and lock wrapper on generated save/update/query sequences. Non-trivial = (A) at least two RPs populated and a list that names a foreign RP's id, (B) a query whose expected result differs from 'all credentials'; distinct by case / by (store, contents, query).".into();
+    ctx.rule = "(A) authenticator over the reference store (contract semantics, call log), MemoryStore, the Option slot and Arc<Mutex<MemoryStore>>: contents of 0-8 credentials over 5 RP IDs (two in a parent/child domain relation, two differing only in letter case) with equal user handles across RPs; assertions and registrations with every allow/exclude-list shape (absent, empty, hits, misses, ids of another RP, unknown descriptor types). (B) contract conformance of every shipped store and lock wrapper on generated save/update/query sequences. Non-trivial = (A) at least two RPs populated and a list that names a foreign RP's id, (B) a query whose expected result differs from 'all credentials'; distinct by case / by (store, contents, query).".into();
     ctx.assumptions = vec![
         "lookup contract: result = { c | c.rp_id == rp_id and (ids is None or c.id in ids) } as a set; an empty result may be Ok([]) or NoCredentials".into(),
         "'first credential the store lists' is asserted on the reference store, whose listing order is insertion order".into(),
